@@ -103,10 +103,12 @@ Record rinfo := mkR {
   r_failed_up : bool;                  (* ghost: a background payload failed while the runner was Up *)
   r_trigger : bool;                    (* ghost: a stop trigger (shutdown / SIGINT / KeyboardInterrupt) occurred *)
   r_sigint : bool;                     (* a SIGINT was delivered while this runner held the guard *)
+  r_loopkill : bool;                   (* an asyncio/thread payload raised SystemExit: kills the asyncio loop
+                                          (known finding C02-systemexit-skips-trio-cleanup) *)
   r_home_aio : option (nat * nat);     (* (thread, loop) all asyncio payloads run on *)
   r_home_trio : option (nat * nat)
 }.
-Definition r0 : rinfo := mkR Idle false 0 0 [] false false false false None None.
+Definition r0 : rinfo := mkR Idle false 0 0 [] false false false false false None None.
 
 Record rt := mkRT {
   guard : option nat;                  (* guard.py: process-wide lock of `accept` *)
@@ -139,28 +141,31 @@ Definition with_st (i : pinfo) (x : pst) : pinfo :=
       (p_cleans i) (p_adopting i) (p_exec_ret i).
 Definition with_phase (i : rinfo) (x : phase) : rinfo :=
   mkR x (r_running i) (r_shut_req i) (r_shut_ret i) (r_failures i) (r_basefail i) (r_failed_up i)
-      (r_trigger i) (r_sigint i) (r_home_aio i) (r_home_trio i).
+      (r_trigger i) (r_sigint i) (r_loopkill i) (r_home_aio i) (r_home_trio i).
 Definition with_running (i : rinfo) : rinfo :=
   mkR (r_phase i) true (r_shut_req i) (r_shut_ret i) (r_failures i) (r_basefail i) (r_failed_up i)
-      (r_trigger i) (r_sigint i) (r_home_aio i) (r_home_trio i).
+      (r_trigger i) (r_sigint i) (r_loopkill i) (r_home_aio i) (r_home_trio i).
 Definition with_shut (i : rinfo) (req ret : nat) : rinfo :=
   mkR (r_phase i) (r_running i) req ret (r_failures i) (r_basefail i) (r_failed_up i)
-      (r_trigger i) (r_sigint i) (r_home_aio i) (r_home_trio i).
+      (r_trigger i) (r_sigint i) (r_loopkill i) (r_home_aio i) (r_home_trio i).
 Definition with_trigger (i : rinfo) : rinfo :=
   mkR (r_phase i) (r_running i) (r_shut_req i) (r_shut_ret i) (r_failures i) (r_basefail i) (r_failed_up i)
-      true (r_sigint i) (r_home_aio i) (r_home_trio i).
+      true (r_sigint i) (r_loopkill i) (r_home_aio i) (r_home_trio i).
 Definition with_sigint (i : rinfo) : rinfo :=
   mkR (r_phase i) (r_running i) (r_shut_req i) (r_shut_ret i) (r_failures i) (r_basefail i) (r_failed_up i)
-      true true (r_home_aio i) (r_home_trio i).
+      true true (r_loopkill i) (r_home_aio i) (r_home_trio i).
 (* record a failure of a background payload: an Exception-like cause, or a non-Exception one *)
 Definition with_failure (i : rinfo) (c : option cause) (count_up : bool) : rinfo :=
   mkR (r_phase i) (r_running i) (r_shut_req i) (r_shut_ret i)
       (match c with Some x => x :: r_failures i | None => r_failures i end)
       (match c with Some _ => r_basefail i | None => true end)
-      (count_up || r_failed_up i) (r_trigger i) (r_sigint i) (r_home_aio i) (r_home_trio i).
+      (count_up || r_failed_up i) (r_trigger i) (r_sigint i) (r_loopkill i) (r_home_aio i) (r_home_trio i).
+Definition with_loopkill (i : rinfo) : rinfo :=
+  mkR (r_phase i) (r_running i) (r_shut_req i) (r_shut_ret i) (r_failures i) (r_basefail i) (r_failed_up i)
+      (r_trigger i) (r_sigint i) true (r_home_aio i) (r_home_trio i).
 Definition with_home (i : rinfo) (a t : option (nat * nat)) : rinfo :=
   mkR (r_phase i) (r_running i) (r_shut_req i) (r_shut_ret i) (r_failures i) (r_basefail i) (r_failed_up i)
-      (r_trigger i) (r_sigint i) a t.
+      (r_trigger i) (r_sigint i) (r_loopkill i) a t.
 
 Definition phase_live (ph : phase) : bool := match ph with Up | Closing _ => true | _ => false end.
 Definition phase_ended (ph : phase) : bool := match ph with Ended _ => true | _ => false end.
@@ -182,6 +187,9 @@ Definition home_tid (o : option (nat * nat)) (t : nat) : bool :=
    while chaining futures: the caller of execute sees an equal copy, not the same object.
    Recorded as known finding C10-asyncio-timeouterror-copied. *)
 Definition aio_copied_exc : nat := 11.
+
+(* exception class 12 of the harness table is SystemExit *)
+Definition sysexit_exc : nat := 12.
 
 Definition mem (x : nat) (l : list nat) : bool := existsb (Nat.eqb x) l.
 Fixpoint remove1 (x : nat) (l : list nat) : list nat :=
@@ -216,6 +224,18 @@ Definition accept_end_ok (i : rinfo) (o : aout) : bool :=
   | _, _ => false
   end.
 
+(* may a coroutine payload of flavour f of this runner still act / start / clean up?
+   Normally only while the run call has not ended; after a loop-killing SystemExit the trio thread
+   keeps unwinding on its own (the known finding). *)
+Definition orphaned_trio (ri : rinfo) (f : flavour) : bool :=
+  phase_ended (r_phase ri) && r_loopkill ri && flav_eqb f Trio.
+Definition may_act (ri : rinfo) (f : flavour) : bool :=
+  negb (phase_ended (r_phase ri)) || orphaned_trio ri f.
+Definition may_start (ri : rinfo) (f : flavour) : bool :=
+  phase_live (r_phase ri) || orphaned_trio ri f.
+Definition may_clean (ri : rinfo) (f : flavour) : bool :=
+  phase_closing (r_phase ri) || orphaned_trio ri f.
+
 (* asyncio_runner.py:37-50, thread_runner.py:36-49, trio_runner.py:76-80: how the end `o` of background
    payload p (of flavour f) changes the record of its live runner *)
 Definition finish_rec (ri : rinfo) (p : nat) (f : flavour) (o : outcome) : rinfo :=
@@ -225,7 +245,10 @@ Definition finish_rec (ri : rinfo) (p : nat) (f : flavour) (o : outcome) : rinfo
   | ORetNone => ri
   | ORetVal _ => with_failure (with_phase ri ph) (Some (COrphan p)) up
   | ORaiseExc _ => with_failure (with_phase ri ph) (Some (CExc p)) up
-  | ORaiseBase _ => with_failure (with_phase ri ph) None up
+  | ORaiseBase e =>
+      (* SystemExit from an asyncio/thread payload is re-raised by asyncio out of the event loop at once *)
+      let ri' := with_failure (with_phase ri ph) None up in
+      if (e =? sysexit_exc) && negb (flav_eqb f Trio) then with_loopkill ri' else ri'
   | OKbd =>
       match f with
       | Trio =>      (* surfaces as a BaseExceptionGroup from trio.run *)
@@ -257,7 +280,7 @@ Definition step_core (s : rt) (e : event) : option rt :=
       end
   | AcceptEnd r o =>                                  (* meta_runner.py:65-76,84-102 *)
       let i := run_ s r in
-      if accept_end_ok i o && (negb (phase_closing (r_phase i)) || settled s r) then
+      if accept_end_ok i o && (negb (phase_closing (r_phase i)) || settled s r || r_loopkill i) then
         Some (set_guard (set_run s r (with_phase i (Ended o))) (release (guard s) r))
       else None
   | RunningSet r =>                                   (* service.py:176-177 *)
@@ -323,7 +346,7 @@ Definition step_core (s : rt) (e : event) : option rt :=
       | None => None
       | Some r =>
           let ri := run_ s r in
-          if flav_eqb f (p_flav i) && args_ok && phase_live (r_phase ri) then
+          if flav_eqb f (p_flav i) && args_ok && may_start ri f then
             let started := mkP PRun f r (p_origin i) tid loop (S (p_starts i)) (p_cancels i) (p_cleans i)
                                (p_adopting i) (p_exec_ret i) in
             if coroutine f then
@@ -358,7 +381,7 @@ Definition step_core (s : rt) (e : event) : option rt :=
       match p_st i with
       | PRun =>
           if (p_tid i =? tid)
-             && (negb (coroutine (p_flav i)) || negb (phase_ended (r_phase (run_ s (p_owner i)))))
+             && (negb (coroutine (p_flav i)) || may_act (run_ s (p_owner i)) (p_flav i))
           then Some s else None
       | _ => None
       end
@@ -368,7 +391,7 @@ Definition step_core (s : rt) (e : event) : option rt :=
       | PRun =>
           if mem p (inside s) then None
           else if coroutine (p_flav i)
-                  && (busy s (p_owner i) (p_flav i) || phase_ended (r_phase (run_ s (p_owner i))))
+                  && (busy s (p_owner i) (p_flav i) || negb (may_act (run_ s (p_owner i)) (p_flav i)))
           then None
           else Some (set_inside s (p :: inside s))
       | _ => None
@@ -381,7 +404,7 @@ Definition step_core (s : rt) (e : event) : option rt :=
       | PRun =>
           let r := p_owner i in
           let ri := run_ s r in
-          if (coroutine (p_flav i) && phase_ended (r_phase ri)) || mem p (inside s) then None
+          if (coroutine (p_flav i) && negb (may_act ri (p_flav i))) || mem p (inside s) then None
           else
             let s1 := set_pay s p (with_st i (PDone o)) in
             if is_exec (p_origin i) || negb (phase_live (r_phase ri)) then Some s1
@@ -393,7 +416,7 @@ Definition step_core (s : rt) (e : event) : option rt :=
       let i := pay s p in
       match p_st i with
       | PRun =>
-          if coroutine (p_flav i) && phase_closing (r_phase (run_ s (p_owner i))) && negb (mem p (inside s)) then
+          if coroutine (p_flav i) && may_clean (run_ s (p_owner i)) (p_flav i) && negb (mem p (inside s)) then
             Some (set_pay s p (mkP PCanc (p_flav i) (p_owner i) (p_origin i) (p_tid i) (p_loop i)
                                    (p_starts i) (S (p_cancels i)) (p_cleans i) (p_adopting i) (p_exec_ret i)))
           else None
@@ -401,14 +424,14 @@ Definition step_core (s : rt) (e : event) : option rt :=
       end
   | CleanStep p =>
       match p_st (pay s p) with
-      | PCanc => if phase_closing (r_phase (run_ s (p_owner (pay s p)))) then Some s else None
+      | PCanc => if may_clean (run_ s (p_owner (pay s p))) (p_flav (pay s p)) then Some s else None
       | _ => None
       end
   | CleanupDone p =>
       let i := pay s p in
       match p_st i with
       | PCanc =>
-          if phase_closing (r_phase (run_ s (p_owner i))) then
+          if may_clean (run_ s (p_owner i)) (p_flav i) then
             Some (set_pay s p (mkP PClean (p_flav i) (p_owner i) (p_origin i) (p_tid i) (p_loop i)
                                    (p_starts i) (p_cancels i) (S (p_cleans i)) (p_adopting i) (p_exec_ret i)))
           else None
